@@ -1087,6 +1087,23 @@ dt_strfd(char *restrict buf, size_t bsz, const char *fmt, struct dt_d_s that)
 		}
 	}
 
+	if (!set_fmt) {
+		/* custom format, what a specifier prints must not depend on
+		 * the calendar the value happens to be held in, so go through
+		 * ymd, the one calendar all specifiers are implemented for */
+		switch (that.typ) {
+		case DT_YWD:
+		case DT_YD:
+		case DT_JDN:
+		case DT_LDN:
+		case DT_MDN:
+		case DT_DAISY:
+			that = dt_dconv(DT_YMD, that);
+		default:
+			break;
+		}
+	}
+
 	switch (that.typ) {
 	case DT_YMD:
 		d.y = that.ymd.y;
